@@ -108,7 +108,7 @@ def evaluate(constant_string: Union[str, None]) -> Constant:
         if constant_string not in ('true', 'false', 'null'):
             try:
                 value = json.loads(constant_string, parse_constant=str)
-            except json.JSONDecodeError:
+            except ValueError:  # includes json.JSONDecodeError
                 value = constant_string
 
     if not (value is None or isinstance(value, (str, int, float))):
